@@ -53,6 +53,13 @@ def line_diff(old, new):
     return [p, len(o) - s, [[ord(c) for c in l] for l in n[:len(n) - s]]]
 
 
+def _note_bad(ctx, firsts, d):
+    """remember a disagreement: the first one of each part always, the others while there is room in the evidence"""
+    firsts.setdefault(d['corr'], d)
+    if len(ctx.corr_disagreements) < 20:
+        ctx.corr_disagreements.append(d)
+
+
 def _fresh_min():
     from fst import FST
     return FST('i', 'exec')
@@ -120,16 +127,19 @@ def _strip_del(model_out):
 
 
 def run_blocks(ctx):
-    maxlen = 4 if ctx.quick else 5
+    maxlen = 3 if ctx.quick else 5
     blocks = ['']
     for n in range(1, maxlen + 1):
         blocks.extend(''.join(t) for t in itertools.product(ALPHA, repeat=n))
     extra = []
     rng = random.Random(ctx.rng.randrange(1 << 30))
+    if ctx.quick:       # quick: every block up to length 3 and a seed-chosen third of the blocks of length 4
+        extra.extend(rng.sample([''.join(t) for t in itertools.product(ALPHA, repeat=4)], 800))
     for _ in range(300 if ctx.quick else 3000):          # longer random blocks
         n = rng.randint(maxlen + 1, 14)
         extra.append(''.join(rng.choice(ALPHA + [' ', ')', ',']) for _ in range(n)))
     jobs = [(b, rng.randrange(1 << 30), 400) for b in blocks] + [(b, rng.randrange(1 << 30), 40) for b in extra]
+    jobs.sort(key=lambda j: -len(j[0]))
     res = pmap(_block_job, jobs)
     cases, reals, metas = [], [], []
     for (b, _, _), (cs, rs) in zip(jobs, res):
@@ -141,6 +151,7 @@ def run_blocks(ctx):
     outs = ctx.lean(cases)
     nbad = 0
     n = 0
+    firsts = {}
     for c, real, (kind, b), o in zip(cases, reals, metas, outs):
         m = o.get('out', o)
         if not isinstance(m, list):
@@ -152,8 +163,7 @@ def run_blocks(ctx):
             n += 1
             if mo != ro:
                 nbad += 1
-                if len(ctx.corr_disagreements) < 20:
-                    ctx.corr_disagreements.append({'corr': f'blocks.{kind}', 'block': b, 'q': q, 'model': mo, 'impl': ro})
+                _note_bad(ctx, firsts, {'corr': f'blocks.{kind}', 'block': b, 'q': q, 'model': mo, 'impl': ro})
                 ctx.hints.append((f'blocks.{kind}', b, q))
     ctx.corr_cases += n
     ctx.count(('blocks', maxlen, len(extra)), True, n)
@@ -162,7 +172,7 @@ def run_blocks(ctx):
     ctx.notes['c01b_blocks'] = {'exhaustive_up_to_len': maxlen, 'blocks': len(blocks), 'random_longer': len(extra), 'calls': n}
     if nbad:
         ctx.brk('correspondence', 'Pfst.Sep.trailSep / maybeInsSep vs FST._trail_sep / _maybe_ins_sep on line blocks',
-                f'{nbad}/{n} calls differ; first: {ctx.corr_disagreements[0]}')
+                f'{nbad}/{n} calls differ; first: {list(firsts.values())[0]}')
 
 
 # ---------------------------------------------------------------------------------------------------------------------
@@ -262,6 +272,25 @@ def _corpus_job(arg):
         if r:
             found.append(('d', index[id(e)], index[id(e)], el, ec, bl, bc, si))
             tl('default_found')
+    dl_cases, dl_reals = [], []
+    for f in nodes:
+        a = f.a
+        for cls, field, delims in ((ast.Tuple, 'elts', '()'), (ast.List, 'elts', '[]'), (ast.MatchSequence, 'patterns', '[]'),
+                                   (ast.MatchSequence, 'patterns', '()')):
+            if type(a) is not cls:
+                continue
+            es = getattr(a, field)
+            d = {'f': 'C01b.isDelim', 'lines': None, 'self': list(f.loc), 'n': len(es), 'delims': [ord(delims[0]), ord(delims[1])]}
+            if es:
+                d['f0'] = list(es[0].f.loc)
+                d['fn'] = list(es[-1].f.loc)
+            try:
+                f._cache.pop(f'isdelseq{field}{delims}', None)
+                real = bool(f._is_delimited_seq(field, delims))
+            except Exception as ex:
+                real = 'EXC ' + type(ex).__name__
+            dl_cases.append(d)
+            dl_reals.append(real)
     if [str(l) for l in root._lines] != lines:
         fails.append(('C01b|_trail_sep|query-mutates', 'the query variant (del_=False) changed the source', {'src': src}))
 
@@ -286,7 +315,11 @@ def _corpus_job(arg):
             ts_r.append(out)
             if new != lines:
                 tl('deleted')
-                v = _same_program(before_dump, r2) if si == 0 else None
+                # the tree is judged only when the separator lies strictly inside its container: a naked tuple (or
+                # another undelimited sequence) ends AT its trailing comma, and re-seating that end after the comma is gone
+                # is the caller's job (`_fix_Tuple` / `_fix_undelimited_seq`), not `_trail_sep`'s
+                inside = r is not None and tuple(nodes[ci if how == 'x' else index[id(nodes[ei].parent)]].loc[2:]) > (r[0], r[1] + len(SEPS[si]))
+                v = _same_program(before_dump, r2) if si == 0 and inside else None
                 if v is None:
                     tl('deleted_other_program')
                 elif v:
@@ -352,13 +385,53 @@ def _corpus_job(arg):
                     else:
                         tl('ins_tree_ok')
     base = {'lines': enc(lines), 'seps': enc(SEPS)}
+    for d in dl_cases:
+        d['lines'] = base['lines']
+    for _, _, wit in fails:
+        wit['job'] = ['corpus', list(arg)]
     return {'idx': idx, 'cases': [dict(base, f='C01b.trailSep', qs=ts_q), dict(base, f='C01b.insSep', qs=in_q)],
-            'reals': [ts_r, in_r], 'fails': fails, 'tallies': tallies, 'src': src}
+            'reals': [ts_r, in_r], 'fails': fails, 'tallies': tallies, 'src': src, 'dl': (dl_cases, dl_reals)}
+
+
+def add_trailing_commas(src, rng, p=0.5):
+    """put a trailing comma (with random blanks / a comment / a continuation around it) before closing brackets, one at a
+    time, keeping only additions after which the program parses to the same AST"""
+    import io
+    import tokenize
+    try:
+        ref = ast.dump(ast.parse(src))
+        toks = list(tokenize.generate_tokens(io.StringIO(src).readline))
+    except Exception:
+        return src
+    spots = []
+    prev = None
+    for t in toks:
+        if t.type == tokenize.OP and t.string in ')]}' and prev is not None and prev.type not in (tokenize.NL, tokenize.COMMENT) \
+                and prev.string not in ('(', '[', '{', ','):
+            spots.append(prev.end)
+        if t.type not in (tokenize.NL, tokenize.COMMENT, tokenize.INDENT, tokenize.DEDENT):
+            prev = t
+    cur = src
+    for (ln, col) in sorted(spots, reverse=True):
+        if rng.random() > p:
+            continue
+        ls = cur.split('\n')
+        l = ls[ln - 1]
+        text = rng.choice([',', ' ,', ',', ', ', '  ,  ', ' # c\n ,', ' \\\n  ,'])
+        ls[ln - 1] = l[:col] + text + l[col:]
+        new = '\n'.join(ls)
+        try:
+            if ast.dump(ast.parse(new)) == ref:
+                cur = new
+        except Exception:
+            pass
+    return cur
 
 
 def _corpus_programs(ctx, n):
     rng = random.Random(ctx.rng.randrange(1 << 30))
     progs = corpus.programs(rng, n)
+    progs = [add_trailing_commas(p, rng) if i % 2 == 0 else p for i, p in enumerate(progs)]
     progs.extend(SEP_SNIPPETS)
     return progs
 
@@ -386,10 +459,10 @@ SEP_SNIPPETS = [
 
 
 def run_corpus(ctx):
-    nprog = 120 if ctx.quick else 1200
+    nprog = 150 if ctx.quick else 2000
     progs = _corpus_programs(ctx, nprog)
     rng = random.Random(ctx.rng.randrange(1 << 30))
-    jobs = [(i, p, rng.randrange(1 << 30), 10 if ctx.quick else 40, 14 if ctx.quick else 50) for i, p in enumerate(progs)]
+    jobs = [(i, p, rng.randrange(1 << 30), 16 if ctx.quick else 60, 20 if ctx.quick else 80) for i, p in enumerate(progs)]
     res = [r for r in pmap(_corpus_job, jobs) if r]
     cases, reals, metas = [], [], []
     for r in res:
@@ -405,6 +478,7 @@ def run_corpus(ctx):
             ctx.fail(sig, what, wit)
     outs = ctx.lean(cases)
     nbad = n = 0
+    firsts = {}
     for c, real, (kind, src), o in zip(cases, reals, metas, outs):
         m = o.get('out', o)
         if not isinstance(m, list):
@@ -417,18 +491,19 @@ def run_corpus(ctx):
             ctx.count(('corpus', kind, src, q), ro[0] is not None)
             if mo != ro:
                 nbad += 1
-                if len(ctx.corr_disagreements) < 20:
-                    ctx.corr_disagreements.append({'corr': f'corpus.{kind}', 'src': src, 'q': q, 'model': mo, 'impl': ro})
+                _note_bad(ctx, firsts, {'corr': f'corpus.{kind}', 'src': src, 'q': q, 'model': mo, 'impl': ro})
                 ctx.hints.append((f'corpus.{kind}', src, q))
     ctx.corr_cases += n
     ctx.tally('correspondence_cases', 'corpus')
     ctx.dist['correspondence_cases']['corpus'] = n
     ctx.notes['c01b_corpus'] = {'programs': len(res), 'calls': n}
+    _compare(ctx, 'corpus.isDelim', 'Pfst.Sep.isDelimitedSeq vs FST._is_delimited_seq on corpus sequences',
+             [c for r in res for c in r['dl'][0]], [x for r in res for x in r['dl'][1]])
     if cases:
         ctx.sample({'corr': 'corpus.trailSep', 'src': metas[0][1][:200], 'q': cases[0]['qs'][:3], 'impl': reals[0][:3]})
     if nbad:
         ctx.brk('correspondence', 'Pfst.Sep.trailSep / maybeInsSep vs FST._trail_sep / _maybe_ins_sep on corpus trees',
-                f'{nbad}/{n} calls differ; first: {ctx.corr_disagreements[0]}')
+                f'{nbad}/{n} calls differ; first: {list(firsts.values())[0]}')
 
 
 # ---------------------------------------------------------------------------------------------------------------------
@@ -503,6 +578,11 @@ def _tuple_layouts(rng, quick):
                 if delim:
                     body = '(' + gap(True) + body + gap(False) + ')'
                 out.append((body, delim, n, not delim and style in ('nl', 'cmt', 'mixed')))
+    # shapes where "delimited" must be decided by counting parentheses around the first element
+    for text, delim, n in [('(a), (b)', False, 2), ('(a), b, (c)', False, 3), ('((a)), (b)', False, 2), ('(a), ((b))', False, 2),
+                           ('((a), (b))', True, 2), ('((a),)', True, 1), ('(a),', False, 1), ('((a), b)', True, 2),
+                           ('(a, (b))', True, 2), ('( (a) , (b) )', True, 2), ('(a) , (b)', False, 2), ('(a)\\\n, (b)', False, 2)]:
+        out.append((text, delim, n, False))
     return out
 
 
@@ -530,6 +610,8 @@ def _tuple_job(arg):
             states.append('wide')
             pad_l = rng.choice(['', ' ', '   ', ' \\\n  ', '\n'])
             pad_r = rng.choice(['', ' ', '   ', ' \\\n', '\n', ' \\\n  ', '  \\\n\n'])
+        if ctxt == '{}' and not delim and '\n' in text:
+            states.extend(['tail0', 'tail1', 'tail2', 'tail3', 'tail4'])   # multi-line naked root tuple (gets delimited): comment / continuation after its end
         for state in states:
             if state == 'wide':
                 src = pad_l + text + pad_r
@@ -557,6 +639,9 @@ def _tuple_job(arg):
                         r = t.a.elts[0].f._trail_sep(del_=True)
                         if not r:
                             break
+                    if state.startswith('tail'):
+                        from fst.astutil import bistr
+                        root._lines[-1] = bistr(root._lines[-1] + [' \\', '  # c', '\\', ' #c \\', '   '][int(state[4])])
                     if state == 'wide':
                         ls = root._lines
                         t.a.lineno, t.a.col_offset = 1, 0
@@ -576,7 +661,7 @@ def _tuple_job(arg):
                         new = None
                     cases.append(d)
                     reals.append(out)
-                    k = f'{state}|n={n}|delim={actual}|' + ('changed' if new != lines else 'same')
+                    k = f'{state[:4]}|n={n}|delim={actual}|' + ('changed' if new != lines else 'same')
                     tallies[k] = tallies.get(k, 0) + 1
                     if new is not None and ctxt != '{}':
                         v = _same_program(before_dump, root)
@@ -596,6 +681,8 @@ def _tuple_job(arg):
                             fails.append((f'C01b|_fix_Tuple|singleton-without-comma|delim={actual}',
                                           f'_fix_Tuple left a 1-tuple without its comma in `{ctxt}`',
                                           {'src': src, 'is_delimited': isd, 'par_if_needed': par, 'after': root.src}))
+    for _, _, wit in fails:
+        wit['job'] = ['tuple', list(arg)]
     return cases, reals, fails, tallies, dl_cases, dl_reals, text
 
 
@@ -781,9 +868,9 @@ def _organic_job(arg):
 
 def run_organic(ctx):
     rng = random.Random(ctx.rng.randrange(1 << 30))
-    nprog = 150 if ctx.quick else 1500
-    progs = corpus.programs(random.Random(rng.randrange(1 << 30)), nprog) + SEP_SNIPPETS * 3
-    jobs = [(i, p, rng.randrange(1 << 30), 6 if ctx.quick else 10) for i, p in enumerate(progs)]
+    nprog = 400 if ctx.quick else 4000
+    progs = corpus.programs(random.Random(rng.randrange(1 << 30)), nprog) + SEP_SNIPPETS * (6 if ctx.quick else 40)
+    jobs = [(i, p, rng.randrange(1 << 30), 10 if ctx.quick else 16) for i, p in enumerate(progs)]
     res = pmap(_organic_job, jobs)
     by = {}
     for recs in res:
@@ -814,6 +901,7 @@ def run_organic(ctx):
             reals.append(out)
         outs = ctx.lean(cases)
         nbad = 0
+        firsts = {}
         for c, ro, o in zip(cases, reals, outs):
             mo = o.get('out', o)
             if kind in ('trailSep', 'insSep', 'joined') and isinstance(mo, list) and mo:
@@ -826,14 +914,13 @@ def run_organic(ctx):
             ctx.count(('organic', kind, c), changed)
             if mo != ro:
                 nbad += 1
-                if len(ctx.corr_disagreements) < 20:
-                    ctx.corr_disagreements.append({'corr': f'organic.{kind}', 'case': _readable(c), 'model': mo, 'impl': ro})
+                _note_bad(ctx, firsts, {'corr': f'organic.{kind}', 'case': _readable(c), 'model': mo, 'impl': ro})
                 ctx.hints.append((f'organic.{kind}', c))
         ctx.corr_cases += len(cases)
         ctx.tally('correspondence_cases', f'organic.{kind}')
         ctx.dist['correspondence_cases'][f'organic.{kind}'] = len(cases)
         if nbad:
-            first = next(d for d in ctx.corr_disagreements if d['corr'] == f'organic.{kind}')
+            first = list(firsts.values())[0]
             ctx.brk('correspondence', f'Pfst.Sep model vs FST.{kind} observed inside real slice edits',
                     f'{nbad}/{len(cases)} calls differ; first: {first}')
 
@@ -931,20 +1018,20 @@ def run_lines(ctx):
     cases = [c for c, _ in res]
     outs = ctx.lean(cases)
     nbad = n = 0
+    firsts = {}
     for (c, real), o in zip(res, outs):
         m = o.get('out', o)
         for q, mo, ro in zip(c['qs'], m if isinstance(m, list) else [m] * len(real), real):
             n += 1
             if mo != ro:
                 nbad += 1
-                if len(ctx.corr_disagreements) < 20:
-                    ctx.corr_disagreements.append({'corr': 'lines.joined', 'lines': _readable(c)['lines'], 'q': q, 'model': mo, 'impl': ro})
+                _note_bad(ctx, firsts, {'corr': 'lines.joined', 'lines': _readable(c)['lines'], 'q': q, 'model': mo, 'impl': ro})
     ctx.corr_cases += n
     ctx.count(('lines.joined', maxlen), True, n)
     ctx.tally('correspondence_cases', 'lines.joined')
     ctx.dist['correspondence_cases']['lines.joined'] = n
     if nbad:
-        first = next(d for d in ctx.corr_disagreements if d['corr'] == 'lines.joined')
+        first = firsts['lines.joined']
         ctx.brk('correspondence', 'Pfst.Sep.fixJoinedAlnums vs FST._fix_joined_alnums', f'{nbad}/{n} calls differ; first: {first}')
     # _maybe_add_line_continuations: every line the real function rewrote must be what the line model says (which lines
     # it looks at is decided by the tree: enclosed lines and the last line are left alone)
@@ -972,16 +1059,15 @@ def run_lines(ctx):
                 nrew += 1
                 if model_l != new_l or i == last:
                     nbad += 1
-                    if len(ctx.corr_disagreements) < 20:
-                        ctx.corr_disagreements.append({'corr': 'lines.lineCont', 'src': src, 'kw': kw, 'line': i, 'old': old_l,
-                                                       'impl': new_l, 'model': model_l})
+                    _note_bad(ctx, firsts, {'corr': 'lines.lineCont', 'src': src, 'kw': kw, 'line': i, 'old': old_l,
+                                            'impl': new_l, 'model': model_l})
     ctx.corr_cases += n
     ctx.count(('lines.lineCont', len(srcs)), True, nrew)
     ctx.tally('correspondence_cases', 'lines.lineCont')
     ctx.dist['correspondence_cases']['lines.lineCont'] = n
     ctx.notes['c01b_linecont'] = {'expressions': len(srcs), 'lines': n, 'rewritten_lines_compared': nrew}
     if nbad:
-        first = next(d for d in ctx.corr_disagreements if d['corr'] == 'lines.lineCont')
+        first = firsts['lines.lineCont']
         ctx.brk('correspondence', 'Pfst.Sep.lineContLine vs the lines FST._maybe_add_line_continuations rewrote',
                 f'{nbad}/{n} lines differ; first: {first}')
 
@@ -992,20 +1078,20 @@ def _compare(ctx, name, title, cases, reals, nontrivial=None):
         return
     outs = ctx.lean(cases)
     nbad = 0
+    firsts = {}
     for c, ro, o in zip(cases, reals, outs):
         mo = o.get('out', o)
         ctx.count((name, c), True if nontrivial is None else nontrivial(c, ro))
         if mo != ro:
             nbad += 1
-            if len(ctx.corr_disagreements) < 20:
-                ctx.corr_disagreements.append({'corr': name, 'case': _readable(c), 'model': mo, 'impl': ro})
+            _note_bad(ctx, firsts, {'corr': name, 'case': _readable(c), 'model': mo, 'impl': ro})
             ctx.hints.append((name, c))
     ctx.corr_cases += len(cases)
     ctx.tally('correspondence_cases', name)
     ctx.dist['correspondence_cases'][name] = len(cases)
     ctx.sample({'corr': name, 'case': _readable(cases[0]), 'impl': reals[0]})
     if nbad:
-        first = next(d for d in ctx.corr_disagreements if d['corr'] == name) if any(d['corr'] == name for d in ctx.corr_disagreements) else ''
+        first = firsts[name]
         ctx.brk('correspondence', title, f'{nbad}/{len(cases)} cases differ; first: {first}')
 
 
@@ -1014,6 +1100,25 @@ def _readable(c):
     if 'lines' in d:
         d['lines'] = [dec_line(l) for l in d['lines']]
     return d
+
+
+def replay_c01b(ctx, data):
+    """re-run the job that produced a C01b witness; the failure is reported again while the implementation still fails"""
+    w = data.get('witness') or {}
+    job = w.get('job')
+    if not job:
+        return
+    kind, arg = job
+    if kind == 'corpus':
+        r = _corpus_job(tuple(arg))
+        fails = r['fails'] if r else []
+    else:
+        fails = _tuple_job(tuple(arg))[2]
+    want = data.get('signature')
+    for sig, what, wit in fails:
+        if want in (None, 'replay', sig):
+            ctx.fail('replay' if want in (None, 'replay') else sig, what, wit)
+            return
 
 
 def correspondence_c01b(ctx):
